@@ -143,12 +143,15 @@ func (w *world) configText(id, fault string) string {
 	}
 	fmt.Fprintf(&b, "# configuration %s\nroute:\n  receiver: %s-r0\n  group_by: [alertname]\n  group_wait: 100ms\n  group_interval: %s\n  repeat_interval: 4h\n", id, id, interval)
 	fmt.Fprintf(&b, "  routes:\n    - matchers: [ sev=\"x\" ]\n      receiver: %s\n", child)
+	// a route that is muted around the clock (op gmuted)
+	fmt.Fprintf(&b, "    - matchers: [ sev=\"m\" ]\n      receiver: %s-r0\n      mute_time_intervals: [ always ]\n", id)
 	if fault == "big" {
 		// a valid configuration whose textual form takes a while to produce (GET /api/v2/status marshals it)
 		for i := 0; i < bigRoutes; i++ {
 			fmt.Fprintf(&b, "    - matchers: [ filler=\"v%d\", filler2=~\"w%d.*\" ]\n      receiver: %s-r0\n      group_by: [ alertname, filler, f%d ]\n", i, i, id, i)
 		}
 	}
+	b.WriteString("time_intervals:\n  - name: always\n    time_intervals:\n      - times:\n          - start_time: '00:00'\n            end_time: '24:00'\n")
 	b.WriteString("inhibit_rules:\n  - source_matchers: [ role=\"src\" ]\n    target_matchers: [ role=\"tgt\" ]\n    equal: [ alertname ]\n")
 	b.WriteString("receivers:\n")
 	for _, r := range []string{"r0", "r1"} {
@@ -573,6 +576,63 @@ func (w *world) exec(line string) string {
 			return m[1]
 		}
 		return "unknown"
+	case "gmuted":
+		// two groups, one of a route inside its mute interval, one of a route without intervals: what GET /alerts/groups
+		// says about each (C15: the muted group is reported as muted, with the interval's name — and only that group)
+		if w.a == nil {
+			return "noapp"
+		}
+		name := t[1]
+		now := time.Now()
+		mk := func(n, sev string) map[string]any {
+			l := map[string]string{"alertname": n}
+			if sev != "" {
+				l["sev"] = sev
+			}
+			return map[string]any{"labels": l, "startsAt": now.Format(time.RFC3339Nano), "endsAt": now.Add(30 * time.Minute).Format(time.RFC3339Nano)}
+		}
+		body, _ := json.Marshal([]map[string]any{mk(name+"-a", "m"), mk(name+"-b", "")})
+		if code, resp, err := w.post("/api/v2/alerts", "application/json", body); err != nil || code != 200 {
+			return fmt.Sprintf("posterr:%d:%s", code, hx.Hex(string(resp)))
+		}
+		out := "a=missing b=missing"
+		// the muted group is marked by its first flush (group_wait 100 ms)
+		for deadline := now.Add(10 * time.Second); time.Now().Before(deadline); time.Sleep(50 * time.Millisecond) {
+			code, body, err := w.get("/api/v2/alerts/groups")
+			if err != nil || code != 200 {
+				continue
+			}
+			var gs []struct {
+				Labels map[string]string `json:"labels"`
+				Alerts []struct {
+					Labels map[string]string `json:"labels"`
+					Status struct {
+						State   string   `json:"state"`
+						MutedBy []string `json:"mutedBy"`
+					} `json:"status"`
+				} `json:"alerts"`
+			}
+			if json.Unmarshal(body, &gs) != nil {
+				continue
+			}
+			a, b := "missing", "missing"
+			for _, g := range gs {
+				for _, al := range g.Alerts {
+					v := fmt.Sprintf("%s:%s", al.Status.State, hx.Join(al.Status.MutedBy, ","))
+					switch al.Labels["alertname"] {
+					case name + "-a":
+						a = v
+					case name + "-b":
+						b = v
+					}
+				}
+			}
+			out = "a=" + a + " b=" + b
+			if a == "suppressed:always" && b != "missing" {
+				break
+			}
+		}
+		return out
 	case "astatus":
 		if w.a == nil {
 			return "noapp"
@@ -819,7 +879,7 @@ func TestInner(t *testing.T) {
 		n, p := 0, 0
 		cfg := func() string { n++; return fmt.Sprintf("c%d", n) }
 		probe := func(sev string) string { p++; return fmt.Sprintf("probe p%d-%d %s", id, p, sev) }
-		lines := []string{"steps", "start " + cfg(), probe("-"), probe("x"), fmt.Sprintf("astatus s%d-0", id)}
+		lines := []string{"steps", "start " + cfg(), probe("-"), probe("x"), fmt.Sprintf("astatus s%d-0", id), fmt.Sprintf("gmuted g%d", id)}
 		for _, f := range faults {
 			c := cfg()
 			lines = append(lines, fmt.Sprintf("reload %s %s %s", c, f, hx.Pick(r, vias)))
